@@ -165,8 +165,29 @@ def gen_structured_matcher(d):
     return t
 
 
+def gen_deep_matcher(d):
+    """bracket nesting far beyond what anybody types (a generated or pasted matcher): accepted ones must still print and evaluate"""
+    n = d.choice([5, 20, 33, 60, 120, 200, 240, 260, 300, 400, 480, 520])
+    a = d.choice(['a', 'wl_surface', '5', '*'])
+    form = d.int(0, 5)
+    if form == 0: t = '[' * n + a + ']' * n
+    elif form == 1: t = ('[' + a + ',') * n + a + ']' * n
+    elif form == 2: t = ('[' + a + ' ! ') * n + a + ']' * n
+    elif form == 3: t = ('[' + a + ', x ! ') * n + a + ']' * n
+    elif form == 4: t = ('[' + a + ',') * n + a + ']' * (n - d.int(0, 2))        # not closed properly
+    else: t = ('[[' + a + '],') * n + a + ']' * n
+    where = d.int(0, 4)
+    if where == 0: return t
+    if where == 1: return '.' + t
+    if where == 2: return '(' + t + ')'
+    if where == 3: return '(x=' + t + ')'
+    return t + ': ' + a
+
+
 def gen_matcher_text(d):
-    k = d.int(0, 12)
+    k = d.int(0, 13)
+    if k == 13:
+        return gen_deep_matcher(d)
     if k >= 10:
         return gen_structured_matcher(d)
     if k <= 5:
@@ -243,6 +264,9 @@ class Commands(Stage):
             k = d.int(0, 12)
             if k == 12:
                 c = d.choice(['connection', 'connection', 'c', 'connection A', 'connection all', 'connection editor', 'connection x'])
+            elif k >= 10 and d.chance(0.15):
+                # the GDB-style prefix many times over (a macro or a stuck key), then a command
+                c = d.choice(['wl ', 'w ', 'wl  ', 'w wl ']) * d.choice([3, 50, 400, 1000, 5000]) + d.choice(['help', 'list', 'connection', '', 'x', 'filter a'])
             elif k >= 10:
                 # a command whose argument is itself a command word or just the GDB-style prefix
                 c = d.choice(['help', 'h', 'wl help', 'wlhelp', 'w help', 'list', 'filter', 'breakpoint', 'connection', 'matcher', 'wl list', 'wlconnection', 'resume', 'quit']) + ' ' + d.choice(
